@@ -589,13 +589,24 @@ sds_read_s (SF_PRIVATE *psf, short *ptr, sf_count_t len)
 static sf_count_t
 sds_read_i (SF_PRIVATE *psf, int *ptr, sf_count_t len)
 {	SDS_PRIVATE *psds ;
-	int			total ;
+	int			readcount, count ;
+	sf_count_t	total = 0 ;
 
 	if (psf->codec_data == NULL)
 		return 0 ;
 	psds = (SDS_PRIVATE*) psf->codec_data ;
 
-	total = sds_read (psf, psds, ptr, len) ;
+	/* The block layer counts in int : hand a long request over in pieces. */
+	while (len > 0)
+	{	readcount = (len > 0x10000000) ? 0x10000000 : (int) len ;
+
+		count = sds_read (psf, psds, ptr + total, readcount) ;
+
+		total += count ;
+		len -= count ;
+		if (count != readcount)
+			break ;
+		} ;
 
 	return total ;
 } /* sds_read_i */
@@ -933,14 +944,25 @@ sds_write_s (SF_PRIVATE *psf, const short *ptr, sf_count_t len)
 static sf_count_t
 sds_write_i (SF_PRIVATE *psf, const int *ptr, sf_count_t len)
 {	SDS_PRIVATE *psds ;
-	int			total ;
+	int			writecount, count ;
+	sf_count_t	total = 0 ;
 
 	if (psf->codec_data == NULL)
 		return 0 ;
 	psds = (SDS_PRIVATE*) psf->codec_data ;
 	psds->total_written += len ;
 
-	total = sds_write (psf, psds, ptr, len) ;
+	/* The block layer counts in int : hand a long request over in pieces. */
+	while (len > 0)
+	{	writecount = (len > 0x10000000) ? 0x10000000 : (int) len ;
+
+		count = sds_write (psf, psds, ptr + total, writecount) ;
+
+		total += count ;
+		len -= count ;
+		if (count != writecount)
+			break ;
+		} ;
 
 	return total ;
 } /* sds_write_i */
